@@ -123,6 +123,9 @@ def _pymod(a, b):
 
 
 class SymBool:
+    def __deepcopy__(s, memo):  # terms are immutable values
+        return s
+
     __slots__ = ("e",)
     __array_ufunc__ = None
 
@@ -158,6 +161,9 @@ class SymBool:
 
 
 class SymInt:
+    def __deepcopy__(s, memo):  # terms are immutable values
+        return s
+
     __slots__ = ("e",)
     __array_ufunc__ = None
     __array_priority__ = 1000
@@ -340,6 +346,9 @@ class SymInt:
 
 
 class SymReal:
+    def __deepcopy__(s, memo):  # terms are immutable values
+        return s
+
     """real-valued term; only what the CUDA launch code needs (n/bs, ceil)"""
 
     __slots__ = ("e",)
